@@ -669,13 +669,17 @@ fn try_run_func(
         let cr_list = scripting::run_lines(sh, &func_body, &args, capture);
         let mut stdout = String::new();
         let mut stderr = String::new();
+        // the status of a function call is that of its last command
+        let mut status = 0;
         for cr in cr_list {
+            status = cr.status;
             stdout.push_str(cr.stdout.trim());
             stdout.push(' ');
             stderr.push_str(cr.stderr.trim());
             stderr.push(' ');
         }
         let mut cr = CommandResult::new();
+        cr.status = status;
         cr.stdout = stdout;
         cr.stderr = stderr;
         return Some(cr);
